@@ -79,7 +79,10 @@
      PlainAnsweredOnTls    plain HTTP on the TLS port is answered with a plaintext 400
      Timeout408Plain       the 408 of a stalled handshake is written to the raw socket
      HsFailLeaksWorker     a failed handshake never returns its worker
-   and one more defect the code had (tokio runtime, repaired):
+   and two more defects the code had (repaired), both violating Inv_Flushed:
+     NagleHoldsResponse    accepted sockets kept Nagle's algorithm on: a response shorter than a segment waited in the
+                           kernel for the acknowledgement of earlier data (over TLS 1.3: of the session tickets), and
+                           a close with request bytes still unread reset the connection and discarded it
      TlsNoFlush            client_handler did not flush the TLS stream after write_all: with a full send buffer the last
                            records of a large response stayed in tokio-rustls' buffer - a truncated body on
                            Connection: close, a response that never completes on keep-alive *)
@@ -220,10 +223,11 @@ App_Start ==
 \* the per-connection loop of HttpConn over the decrypted stream of the focus connection
 FocusClient == ts[0] = "est" /\ ClientStep /\ UNCHANGED <<tlsvars, redvars>>
 \* A response is written INTO the TLS layer, which hands the socket what it takes at once and keeps the rest (tokio-rustls:
-\* up to 64 KiB) until it is flushed.  The code flushes after every response, as part of the step that writes it.
+\* up to 64 KiB) until it is flushed; the socket in turn sends at once only with TCP_NODELAY.  The code flushes after every
+\* response and sets TCP_NODELAY on every accepted socket: writing a response and its leaving the machine are one step.
 FocusServer ==
   /\ ts[0] = "est" /\ ServerStep
-  /\ IF Len(out') > Len(out) /\ "TlsNoFlush" \in Dev /\ Runtime = "tokio"
+  /\ IF Len(out') > Len(out) /\ (("TlsNoFlush" \in Dev /\ Runtime = "tokio") \/ "NagleHoldsResponse" \in Dev)
      THEN pend' \in {0, 1}          \* the socket took everything, or it did not
      ELSE pend' = 0
   /\ UNCHANGED <<acc, stops, accCur, tkind, ts, raw, gone, served, leak, redvars>>
